@@ -81,7 +81,8 @@ def syn_batches(ns, variants, third=None):
                 for k, boxes in enumerate(itertools.product(BTL, repeat=n)):
                     if third is not None and n >= 3 and k % 3 != third:
                         continue
-                    yield dict(part="syn", n=n, var=v, ps=ps, boxes=list(boxes))
+                    # the near-bound position letter N is enumerated for n <= 2 only
+                    yield dict(part="syn", n=n, var=v, ps=ps, boxes=list(boxes), noN=(n >= 3))
 
 
 def tiled_batches(ns, variants):
@@ -101,7 +102,9 @@ def expand(batch):
     base = batch.get("tiled") or n
     boxes = batch["boxes"]
     gv = CT[v]["gv"]
-    for pos in itertools.product(*[positions(b) for b in boxes[:base]]):
+    def _pos(b):
+        return tuple(q for q in positions(b) if not (batch.get("noN") and q == "N"))
+    for pos in itertools.product(*[_pos(b) for b in boxes[:base]]):
         for gi in itertools.product(range(len(gv)), repeat=base):
             yield dict(part="syn1", n=n, var=v, ps=batch["ps"], boxes=boxes,
                        pos=F.tile(list(pos), n), gi=F.tile(list(gi), n))
